@@ -3,7 +3,7 @@ PROPERTY = "C19"
 LEVEL = "proof"
 FUNCTIONS = ['uxarray.grid.connectivity._replace_fill_values',
     'uxarray.io._topology._process_connectivity']
-STANDINS = ["sharing"]
+STANDINS = ["sharing", "explicit_spec"]
 ASSUMPTIONS = []
 EXPLANATION = ""
 LEVEL_TEXT = "_replace_fill_values and _process_connectivity proved with ownership frames: the caller's array is never stored into and the result is fresh storage; Grid.copy / exports / constructors bounded (mutate-and-compare)"
